@@ -294,6 +294,19 @@ Proof.
   now rewrite andb_false_r.
 Qed.
 
+(** ... and, whatever the directives carry, on what would_enable can ask about at all: an EVENT's metadata without fields
+    (a directive with field names never cares about such metadata; for span metadata the code skips the field-name test,
+    so nothing is claimed there). *)
+Lemma would_enable_agrees_fieldless_event t m :
+  is_event m = true -> m_fields m = [] -> would_enable t (m_target m) (m_level m) = targets_enabled t m.
+Proof.
+  intros Ev Nf. unfold would_enable, target_enabled, targets_enabled, enabled_s.
+  rewrite (find_ext (fun d => cares_target d (m_target m)) (fun d => cares_s d m)); auto.
+  intros d _. unfold cares_target, cares_s. rewrite Ev, Nf.
+  destruct (s_fields d) as [|x r]; simpl; [reflexivity|].
+  now rewrite !andb_false_r.
+Qed.
+
 Lemma no_fields_build l : no_fields l -> no_fields (ds_dirs (s_build l)).
 Proof.
   intros NF d Hd. apply replace_build in Hd. destruct Hd as (l1 & l2 & -> & _).
